@@ -68,8 +68,20 @@ Section O14.
           | _, _ => true
           end.
 
+  (* the strategy has a say on differing files only: FileSyncConflict needs a conflict and no strategy, and
+     whatever the strategy answers, files that exist only in the source are copied (C13's superset clause) *)
+  Definition any_conflict (deep : bool) (i : sinput) : bool :=
+    existsb (fun pr => match snd pr with
+                       | Some dd => nonempty (conflicts deep i (snd (fst pr)) dd)
+                       | None => false
+                       end) (pairs i).
+
   Definition files_ok (i : sinput) (o : sobs) : bool :=
-    o_dry_run (i_opts i) || files_ok_with (o_deep (i_opts i)) i o.
+    o_dry_run (i_opts i)
+    || (files_ok_with (o_deep (i_opts i)) i o
+        && (negb (exn_opt_eqb (ob_exn o) (Some EFileSyncConflict))
+            || (is_none (o_strategy (i_opts i)) && any_conflict (o_deep (i_opts i)) i))
+        && (negb (is_none (ob_exn o)) || superset frepr i o)).
 
   (* ---------------------------------------------------------------- documents *)
   (* a key whose values differ (and are not both mappings) keeps its value unless the key strategy selects
@@ -151,11 +163,15 @@ Section O14.
     files_ok i o && docs_ok i o && no_backup_left i o.
 End O14.
 
-(* known finding 1: below depth 2 ByKey asks the key strategy about a truncated dotted name *)
+(* known findings (scheme: CorrC15): 1 below depth 2 ByKey asks the key strategy about a truncated dotted name;
+   2 differing files whose name merely starts like the state point / document file are never offered to the
+   strategy (un-anchored implicit exclude patterns); 3 neither are files named like filecmp.DEFAULT_IGNORES *)
 Definition known_tag_C14 (c : case_sync) : N :=
   if negb (holds_C14 (cs_frepr c) (cs_case c))
      && holds_C14 (cs_frepr c) (model_case (cs_frepr c) cfg_fixed (c_in (cs_case c)))
-  then (if active (cs_frepr c) 7 (c_in (cs_case c)) then 1%N else 0%N)
+  then (if active (cs_frepr c) 7 (c_in (cs_case c)) then 1%N
+        else if active (cs_frepr c) 9 (c_in (cs_case c)) then 2%N
+        else if active (cs_frepr c) 8 (c_in (cs_case c)) then 3%N else 0%N)
   else 0%N.
 
 Definition case_C14 := case_sync.
